@@ -326,6 +326,226 @@ def case_select(ctx, case):
 
 
 # ------------------------------------------------------------------------------------------------
+# parorder: the order of a PARALLEL batch read = the order of the serial read = the listing order
+# ------------------------------------------------------------------------------------------------
+def _big_chain(n, nid):
+    """an unbranched skeleton with n nodes (reading it takes ~100× longer than reading a 3-node file)"""
+    i = np.arange(n, dtype=np.int64)
+    df = pd.DataFrame({'node_id': i, 'parent_id': i - 1, 'x': (i % 1024).astype(float), 'y': 0.0, 'z': 0.0, 'radius': 0.0})
+    return navis.TreeNeuron(df, id=nid)
+
+
+def case_parorder(ctx, case):
+    """Members of very different sizes, the large one FIRST: a pool that hands results back in completion order (instead of
+    submission order) returns the small members before the large one. Compared: parallel read vs serial read vs listing."""
+    r = random.Random(case['seed'])
+    cont, k, big = case['cont'], case['k'], case['big']
+    ctx.count('parorder', cont)
+    idpool = r.sample(range(100, 999), k)
+    names = [f'cell{"ABCDEFGHIJ"[j]}_{idpool[j]}' for j in range(k)]
+    with Tmp() as d:
+        fdir = d / 'files'
+        fdir.mkdir()
+        blobs = {}
+        for j, fn in enumerate(names):
+            if j == 0:
+                blobs[fn] = navis.io.precomputed_io._write_skeleton(_big_chain(big, idpool[j]), None)
+            else:
+                ids, parents, xyz, rad = gen_table(r, r.randint(1, 4), 'seq1', 1, False)
+                blobs[fn] = navis.io.precomputed_io._write_skeleton(make_tn(ids, parents, xyz, rad, id=idpool[j]), None)
+        order = list(names)             # the large member first
+        if cont == 'zip':
+            src = str(d / 'arch.zip')
+            with zipfile.ZipFile(src, 'w') as z:
+                for fn in order:
+                    z.writestr(fn, blobs[fn])
+            listing = order
+        elif cont == 'tar':
+            src = str(d / 'arch.tar')
+            with tarfile.open(src, 'w') as tf:
+                for fn in order:
+                    ti = tarfile.TarInfo(fn)
+                    ti.size = len(blobs[fn])
+                    tf.addfile(ti, io.BytesIO(blobs[fn]))
+            listing = order
+        elif cont == 'list':
+            for fn in order:
+                (fdir / fn).write_bytes(blobs[fn])
+            src = [str(fdir / fn) for fn in order]
+            listing = order
+        else:
+            for fn in order:
+                (fdir / fn).write_bytes(blobs[fn])
+            src = str(fdir)
+            listing = [p.name for p in fdir.glob('*')]
+            if listing and listing[0] != names[0]:
+                # make sure the large file is the first one the folder yields: give the first listed name the large content
+                first = listing[0]
+                (fdir / first).write_bytes(blobs[names[0]])
+                (fdir / names[0]).write_bytes(blobs[first])
+        by_id = {idpool[j]: names[j] for j in range(k)}
+
+        def read(parallel):
+            res = navis.read_precomputed(src, datatype='skeleton', fmt='{name}_{id:int}', info=False, parallel=parallel, errors='raise')
+            return [by_id.get(_plain(x.id), f'?{x.id}') for x in res]
+        st, serial = outcome(lambda: read(False))
+        if st == 'raise':
+            ctx.oracle(False, f'serial read of a {cont} with a large first member fails: {serial}', case)
+            return
+        ctx.oracle(serial == listing, f'serial batch read ({cont}) returns {serial}, listing order is {listing}', case)
+        for rep in range(case.get('reps', 2)):
+            got = _in_child(lambda: read(2), 60)
+            if got is None:
+                ctx.count('parallel_pool_timeout', 'parorder')
+                continue
+            if isinstance(got, tuple) and got and got[0] == 'raise':
+                ctx.oracle(False, f'parallel batch read ({cont}) raises: {got[1]}', case)
+                continue
+            ctx.oracle(got == serial, f'parallel=2 batch read of a {cont} whose first member is large ({big} nodes) returns {got}; the serial read '
+                                      f'and the container listing give {serial}: the order depends on `parallel` (completion order)', case)
+
+
+# ------------------------------------------------------------------------------------------------
+# voxhist: assignments between NRRD writes – the file holds what was assigned LAST
+# ------------------------------------------------------------------------------------------------
+SIG_VOX_THRESH = 'VoxelNeuron.threshold/sparse-voxels-with-values/_values-not-filtered/grid-raises'
+
+
+def _scatter(vox, vals):
+    g = np.zeros(tuple(int(v) for v in vox.max(axis=0) + 1), dtype=vals.dtype)
+    g[vox[:, 0], vox[:, 1], vox[:, 2]] = vals
+    return g
+
+
+def _rand_vox(r, n):
+    pts = set()
+    while len(pts) < n:
+        pts.add((r.randrange(6), r.randrange(6), r.randrange(6)))
+    return np.array(sorted(pts), dtype=np.int64)[r.sample(range(n), n)]
+
+
+def _rand_vals(r, n, dt=None):
+    dt = dt or r.choice(['uint8', 'uint16', 'float32', 'int32'])
+    return np.array([r.randint(1, 200) for _ in range(n)], dtype=dt)
+
+
+def case_voxhist(ctx, case):
+    """A VoxelNeuron (built from sparse (N,3) voxels or from a dense grid) is written, modified through its setters /
+    methods, and written again – several times. Every file is decoded by pynrrd and by navis and compared with the content
+    assigned LAST; the versions the Lean cache model (setter → clear facts of the current voxel.py) says the exported grid is
+    built from are compared as well."""
+    r = random.Random(case['seed'])
+    built, steps = case['built'], case['steps']
+    ctx.count('voxhist_built', built)
+    units = r.choice(['8 nm', ['4 nm', '4 nm', '40 nm'], '0.5 um'])
+    N = r.randint(3, 9)
+    datas, valss = {}, {}          # version -> content
+    dver = vver = 1
+    if built == 'sparse':
+        datas[1] = _rand_vox(r, N)
+        n = navis.VoxelNeuron(datas[1].copy(), units=units, id=7, name='vx')
+        if case.get('init_values', True):
+            valss[1] = _rand_vals(r, N)
+            n.values = valss[1].copy()
+        else:
+            valss[1] = np.ones(N)
+    else:
+        g0 = _scatter(_rand_vox(r, N), _rand_vals(r, N, r.choice(['uint8', 'uint16', 'float32'])))
+        datas[1] = g0
+        n = navis.VoxelNeuron(g0.copy(), units=units, id=7, name='vx')
+    ops = []                        # the model's view of the history
+
+    def current():
+        return _scatter(datas[dver], valss[vver].astype(valss[vver].dtype)) if built == 'sparse' else datas[dver]
+
+    def of_versions(dv, vv):
+        return _scatter(datas[dv], valss[vv]) if built == 'sparse' else datas[dv]
+    with Tmp() as d:
+        nwrites = 0
+        for i, stp in enumerate(steps + ['write']):
+            ctx.count('voxhist_step', f'{built}:{stp}')
+            if stp == 'warm':
+                _ = n.grid, n.voxels, n.values, n.shape
+                ops.append('R')
+            elif stp == 'values' and built == 'sparse':
+                vver += 1
+                valss[vver] = _rand_vals(r, len(datas[dver]))
+                n.values = valss[vver].copy()
+                ops.append(f'V{vver}')
+            elif stp == 'voxels' and built == 'sparse':
+                dver += 1
+                datas[dver] = _rand_vox(r, len(datas[dver - 1]))          # same number of voxels: the values stay attached
+                n.voxels = datas[dver].copy()
+                ops.append(f'D{dver}')
+            elif stp == 'grid' and built == 'grid':
+                dver += 1
+                vx = _rand_vox(r, r.randint(3, 9))
+                datas[dver] = _scatter(vx, _rand_vals(r, len(vx), r.choice(['uint8', 'uint16', 'float32'])))
+                n.grid = datas[dver].copy()
+                ops.append(f'D{dver}')
+            elif stp == 'offset':
+                n.offset = np.array([r.randint(0, 50) for _ in range(3)])
+            elif stp == 'threshold':
+                cur_vals = valss[vver] if built == 'sparse' else None
+                t = r.randint(20, 150)
+                if built == 'grid':
+                    if not (datas[dver] >= t).any():
+                        continue
+                    st, e = outcome(lambda: n.threshold(t, inplace=True))
+                    dver += 1
+                    g2 = datas[dver - 1].copy()
+                    g2[g2 < t] = 0
+                    datas[dver] = g2
+                    ops.append(f'D{dver}')
+                else:
+                    keep = cur_vals >= t
+                    if not keep.any():
+                        continue
+                    st, e = outcome(lambda: n.threshold(t, inplace=True))
+                    dver += 1
+                    vver += 1
+                    datas[dver], valss[vver] = datas[dver - 1][keep], cur_vals[keep]
+                    ops += [f'D{dver}', f'V{vver}']
+                if st == 'raise':
+                    ctx.oracle(False, f'VoxelNeuron.threshold({t}, inplace=True) raises {type(e).__name__}: {e}', case)
+                    return
+            elif stp != 'write':
+                continue
+            if stp != 'write' and not (case.get('write_each') and stp not in ('warm',)):
+                continue
+            # ---- export and decode
+            nwrites += 1
+            ops.append('R')
+            fn = d / f'w{i}.nrrd'
+            want = current()
+            st, e = outcome(lambda: navis.write_nrrd(n, str(fn)))
+            if st == 'raise':
+                thr = built == 'sparse' and 'threshold' in steps[:i + 1] and (case.get('init_values', True) or 'values' in steps[:i + 1]) and \
+                    isinstance(e, ValueError) and 'shape mismatch' in str(e)
+                ctx.oracle(False, f'history {steps[:i + 1]} on a {built}-built VoxelNeuron: write_nrrd raises {type(e).__name__}: {str(e)[:120]}', case,
+                           signature=SIG_VOX_THRESH if thr else None)
+                return
+            data, hdr = nrrd.read(str(fn))
+            model = ctx.ask('c14.voxcache ' + ','.join(ops)).split(',')[-1]
+            mdv, mvv = (int(x) for x in model.split(':'))
+            mgrid = of_versions(mdv, mvv if built == 'sparse' else 1)
+            ctx.corr(bool(data.shape == mgrid.shape and np.array_equal(data, mgrid)), True,
+                     f'grid exported after {steps[:i + 1]} vs the versions the Lean cache model (current setter facts) predicts (data v{mdv}, values v{mvv})', case)
+            same = data.shape == want.shape and np.array_equal(data, want)
+            ctx.oracle(bool(same), f'history {steps[:i + 1]} on a {built}-built VoxelNeuron, then write_nrrd: the independent decoder (pynrrd) sees '
+                                   f'{"shape " + str(data.shape) if data.shape != want.shape else "values " + str(sorted(set(data[data > 0].tolist()))[:6])} but the '
+                                   f'neuron currently holds {"shape " + str(want.shape) if data.shape != want.shape else "values " + str(sorted(set(want[want > 0].tolist()))[:6])} '
+                                   f'(a stale cached grid was written)', case)
+            st, back = rd(lambda: navis.read_nrrd(str(fn)))
+            ctx.oracle(st == 'ok' and back.grid.shape == want.shape and np.array_equal(back.grid, want),
+                       f'history {steps[:i + 1]} on a {built}-built VoxelNeuron: read_nrrd(write_nrrd(n)) differs from the neuron\'s current voxels/values', case)
+            if st == 'ok' and built == 'sparse':
+                nz = np.argwhere(want > 0)
+                ctx.oracle(sorted(map(tuple, np.asarray(back.voxels).tolist())) == sorted(map(tuple, nz.tolist())),
+                           'voxels of the neuron read back differ from the voxel coordinates assigned last', case)
+
+
+# ------------------------------------------------------------------------------------------------
 # HDF5, second pass
 # ------------------------------------------------------------------------------------------------
 SIG_H5_AXIS_W = 'H5WriterV1.write_*/raw/per-axis-units/ValueError-truth-value-of-array'
@@ -834,7 +1054,7 @@ def case_jsontypes(ctx, case):
                    signature=SIG_JSON_TYPES if wrap != 'single' and kd in ('mesh', 'dp') else None)
 
 
-RUNNERS = {'jsontypes': case_jsontypes, 'container': case_container, 'select': case_select, 'h5x': case_h5x, 'meshx': case_meshx, 'nrrdx': case_nrrdx,
+RUNNERS = {'voxhist': case_voxhist, 'parorder': case_parorder, 'jsontypes': case_jsontypes, 'container': case_container, 'select': case_select, 'h5x': case_h5x, 'meshx': case_meshx, 'nrrdx': case_nrrdx,
            'jsonkeys': case_jsonkeys}
 
 
@@ -850,6 +1070,13 @@ def gen_cases(ctx):
         yield 'select', dict(cont=cont, reader='pre', k=4, limit=['int', 2], seed=120)
         yield 'select', dict(cont=cont, reader='pre', k=4, limit=['names', [0, 2], 0], seed=121)
     yield 'select', dict(cont='tar', reader='pre', k=3, limit=['none'], seed=122)
+    if nrrd:
+        yield 'voxhist', dict(built='sparse', steps=['write', 'values'], seed=124)                       # the demo of seed C14_4
+        yield 'voxhist', dict(built='sparse', steps=['warm', 'values', 'write', 'voxels', 'values'], write_each=False, seed=125)
+        yield 'voxhist', dict(built='grid', steps=['warm', 'grid', 'write', 'threshold', 'offset'], seed=126)
+        yield 'voxhist', dict(built='sparse', steps=['warm', 'threshold'], seed=127)
+    for cont in ('zip', 'dir', 'list', 'tar'):
+        yield 'parorder', dict(cont=cont, k=5, big=ctx.budget(60000, 150000) if not ctx.search_mode else 60000, reps=2 if cont != 'tar' else 1, seed=123)
     for cont in ('zip', 'tar'):
         yield 'select', dict(cont=cont, reader='pre', k=4, limit=['int', 0], seed=123)
         yield 'select', dict(cont=cont, reader='pre', k=4, limit=['int', 3], seed=124)
@@ -911,6 +1138,18 @@ def gen_cases(ctx):
                 for _ in range(ctx.budget(1, 8)):
                     yield 'nrrdx', dict(sub='container', form=form, what=what, k=r.randint(1, 4), units=r.randrange(4), seed=S())
         yield 'nrrdx', dict(sub='offset', seed=S())
+    # ---- VoxelNeuron histories between NRRD writes
+    if nrrd:
+        for _ in range(ctx.budget(40, 300)):
+            built = r.choice(['sparse', 'sparse', 'grid'])
+            pool = ['warm', 'values', 'voxels', 'offset', 'write', 'values'] if built == 'sparse' else ['warm', 'grid', 'offset', 'threshold', 'write']
+            steps = [r.choice(pool) for _ in range(r.randint(2, 6))]
+            if built == 'sparse' and r.random() < 0.1:
+                steps.append('threshold')
+            yield 'voxhist', dict(built=built, steps=steps, write_each=r.random() < 0.4, init_values=r.random() < 0.8, seed=S())
+    for cont in ('zip', 'dir', 'list') if not ctx.quick() else ():
+        for _ in range(2):
+            yield 'parorder', dict(cont=cont, k=r.randint(3, 6), big=100000, reps=2, seed=S())
     # ---- JSON keys / types
     for kd in ('skel', 'mesh', 'dp'):
         yield 'jsontypes', dict(kd=kd, seed=S())
